@@ -23,7 +23,7 @@
 #endif
 #define NOPS (TT * SS)
 #define MAXN (3 + NOPS)
-#define EV 6
+#define EV 7
 
 struct Cb;
 static void cb_run(uint32_t id);
@@ -31,15 +31,26 @@ struct Cb { uint32_t id; explicit Cb(uint32_t i) : id(i) {} void operator()(uint
 #ifndef THREADING
 #define THREADING VThreading
 #endif
+#ifdef STDMAP
+template <typename K_, typename V_> using OrdMap = std::map<K_, V_>;
+struct Pol { using Threading = THREADING; using Callback = Cb; template <typename K_, typename V_> using Map = OrdMap<K_, V_>; };
+struct PolH { using Threading = THREADING; template <typename K_, typename V_> using Map = OrdMap<K_, V_>; };
+#else
 struct Pol { using Threading = THREADING; using Callback = Cb; };
-#if DISP
+struct PolH { using Threading = THREADING; };
+#endif
+#if DISP == 2
+// the heterogeneous dispatcher has its own copies of the lookup / registration code (and no ownsHandle)
+using T = eventpp::HeterEventDispatcher<int, eventpp::HeterTuple<void(uint32_t), void()>, PolH>;
+#elif DISP
 using T = eventpp::EventDispatcher<int, void(uint32_t), Pol>;
 #else
 using T = eventpp::CallbackList<void(uint32_t), Pol>;
 #endif
 using Handle = T::Handle;
 
-enum Op { O_APPEND, O_PREPEND, O_INSERT_B, O_REMOVE_B, O_REMOVE_A, O_OWNS_B, O_EMPTY, O_INVOKE, O_COUNT };
+enum Op { O_APPEND, O_PREPEND, O_INSERT_B, O_REMOVE_B, O_REMOVE_A, O_OWNS_B, O_EMPTY, O_INVOKE, O_ADD_OTHER, O_COUNT };
+static int g_nextOther = 9;      // events 5, 6 and 8 have listeners from the start (dispatchers with OTHERS); 9, 10, ... are registered by O_ADD_OTHER
 struct Rec { int thread; int op; uint32_t id; int result; int tcall, tret; uint32_t seen[MAXN]; int nseen; };
 struct G {
 	T * t; Handle hA, hB; int ops[TT][SS]; Rec rec[NOPS + 1]; int nrec; int clock; int idx[TT];
@@ -74,8 +85,14 @@ static void perform(int thread, int op, int k)
 	case O_INSERT_B: g->t->insertListener(EV, Cb(r.id), g->hB); break;
 	case O_REMOVE_B: r.result = g->t->removeListener(EV, g->hB); break;
 	case O_REMOVE_A: r.result = g->t->removeListener(EV, g->hA); break;
+#if DISP == 2
+	case O_OWNS_B: r.op = O_ADD_OTHER; break;      // HeterEventDispatcher has no ownsHandle; OPSET 3 never draws it
+#else
 	case O_OWNS_B: r.result = g->t->ownsHandle(EV, g->hB); break;
+#endif
 	case O_EMPTY: r.result = ! g->t->hasAnyListener(EV); break;
+	// a listener of an event nobody listened to before: the event map grows (tree rotation / rehash) while other threads look EV up
+	case O_ADD_OTHER: { int e = g_nextOther++; g->t->appendListener(e, Cb(1000u + (uint32_t)e)); break; }
 	default: g->curTraversal[thread] = ri; g->t->dispatch(EV, 0u); g->curTraversal[thread] = -1; break;
 #else
 	case O_APPEND: g->t->append(Cb(r.id)); break;
@@ -146,8 +163,14 @@ extern "C" void harness()
 {
 	g = new G(); g->t = new T();
 	for(int i = 0; i <= TT; i++) g->curTraversal[i] = -1;
+#if DISP && defined(OTHERS)
+	g->t->appendListener(5, Cb(1005u)); g->t->appendListener(6, Cb(1006u));      // other events first, so that EV is not the root of an ordered map
+#endif
 	if(INIT >= 1) g->hA = do_append(1);
 	if(INIT >= 2) g->hB = do_append(2);
+#if DISP && defined(OTHERS)
+	g->t->appendListener(8, Cb(1008u));
+#endif
 #ifndef OPSET
 #define OPSET 0
 #endif
@@ -155,6 +178,8 @@ extern "C" void harness()
 	static const int opset[] = { O_APPEND, O_PREPEND, O_INSERT_B, O_REMOVE_B, O_OWNS_B, O_INVOKE };
 #elif OPSET == 2
 	static const int opset[] = { O_APPEND, O_INSERT_B, O_REMOVE_B, O_INVOKE };
+#elif OPSET == 3
+	static const int opset[] = { O_APPEND, O_REMOVE_B, O_EMPTY, O_INVOKE, O_ADD_OTHER };      // dispatchers: lookups of EV against growth of the event map
 #else
 	static const int opset[] = { O_APPEND, O_PREPEND, O_INSERT_B, O_REMOVE_B, O_REMOVE_A, O_OWNS_B, O_EMPTY, O_INVOKE };
 #endif
